@@ -656,31 +656,64 @@ func (s *listSUT) Scenario(r *rand.Rand) []core.Ev {
 	var mres, mst any
 	done := make(chan struct{})
 	vis, cnt := []int{}, 0
-	x := guarded(func() {
-		iterate(func(v int) error {
-			cnt++
-			vis = append(vis, v)
-			if cnt == at {
-				go func() {
-					defer close(done)
-					defer func() {
-						if r := recover(); r != nil {
-							mres, mst = res("PANIC", 0), nil
-						}
-					}()
-					mres, mst = s.Apply(m)
-				}()
-				select {
-				case <-done:
-				case <-time.After(4 * time.Millisecond):
+	meanwhile := func() { // runs on the iterating goroutine, in the middle of the iteration
+		go func() {
+			defer close(done)
+			defer func() {
+				if r := recover(); r != nil {
+					mres, mst = res("PANIC", 0), nil
+				}
+			}()
+			mres, mst = s.Apply(m)
+		}()
+		select {
+		case <-done:
+		case <-time.After(4 * time.Millisecond):
+		}
+	}
+	var x string
+	if hl, ok := l.(*hiveList); ok && r.Intn(2) == 0 {
+		// the iteration APIs without a consumer that could stop them half-way (Values, Range, RangeReverse): the list's own
+		// yield point (hook list-range-step, before each step) is where the mutator is started
+		armed := true
+		ds.VerifHook = func(p string) {
+			if armed && p == "list-range-step" {
+				if cnt++; cnt == at {
+					armed = false
+					meanwhile()
 				}
 			}
-			if cnt > 64 {
-				return errStop // (an iteration that does not end is cut off)
+		}
+		x = guarded(func() {
+			switch {
+			case fwd && r.Intn(2) == 0:
+				vis = append(vis, hl.l.Values()...)
+			case fwd:
+				hl.l.Range(func(v int) { vis = append(vis, v) })
+			default:
+				hl.l.RangeReverse(func(v int) { vis = append(vis, v) })
 			}
-			return nil
 		})
-	})
+		ds.VerifHook = nil
+		if armed { // (the hook never reached its at-th step: nothing ran meanwhile)
+			armed = false
+			meanwhile()
+		}
+	} else {
+		x = guarded(func() {
+			iterate(func(v int) error {
+				cnt++
+				vis = append(vis, v)
+				if cnt == at {
+					meanwhile()
+				}
+				if cnt > 64 {
+					return errStop // (an iteration that does not end is cut off)
+				}
+				return nil
+			})
+		})
+	}
 	select {
 	case <-done:
 	case <-time.After(5 * time.Second):
